@@ -56,12 +56,49 @@ type stats struct {
 	violating             int // traces with at least one finding
 	rsetEntries           int
 	wsetEntries           int
-	states                map[uint64]struct{}
+	states                map[stateID]struct{}
 	outcomes              [5 * 32]bool // per call kind: error flag x number of keys yielded
+	// the key dimension, per universe
+	byU [nUniverses]uStats
+}
+
+const nUniverses = 5
+
+// uStats are the counters of the traces of one universe.
+type uStats struct {
+	traces       int
+	scansExact   int             // scans judged by the exact oracle
+	yielded      [maxKeys]int    // rows yielded per key of the universe
+	yieldedFirst [maxKeys]int    // ... as the first row of a scan
+	getFound     [maxKeys]int    // Get found the key
+	bySource     [3][maxKeys]int // rows yielded per layer that holds the visible value: written in this execution, read earlier in this execution, only in the store
+	mergedScans  int             // scans that yielded >= 2 rows while this execution had written or read a key of the bucket (rows come from several layers)
+	earlyStops   int             // scans stopped after one row that had more to yield
+	rsetEntries  [maxKeys]int    // read-set entries per key
+	wsetEntries  [maxKeys]int    // write-set entries per key
+	replayedRows [maxKeys]int    // rows yielded per key on replay over the read set
+}
+
+func (a *uStats) merge(b *uStats) {
+	a.traces += b.traces
+	a.scansExact += b.scansExact
+	a.mergedScans += b.mergedScans
+	a.earlyStops += b.earlyStops
+	for k := 0; k < maxKeys; k++ {
+		a.yielded[k] += b.yielded[k]
+		a.yieldedFirst[k] += b.yieldedFirst[k]
+		a.getFound[k] += b.getFound[k]
+		a.rsetEntries[k] += b.rsetEntries[k]
+		a.wsetEntries[k] += b.wsetEntries[k]
+		a.replayedRows[k] += b.replayedRows[k]
+		for l := 0; l < 3; l++ {
+			a.bySource[l][k] += b.bySource[l][k]
+		}
+	}
 }
 
 func newStats() *stats {
-	return &stats{states: map[uint64]struct{}{}, xferSeqs: map[string]struct{}{}}
+	return &stats{states: map[stateID]struct{}{}, xferSeqs: map[string]struct{}{}}
 }
 
 func (s *stats) merge(o *stats) {
@@ -107,6 +144,9 @@ func (s *stats) merge(o *stats) {
 			s.outcomes[i] = true
 		}
 	}
+	for i := range s.byU {
+		s.byU[i].merge(&o.byU[i])
+	}
 }
 
 var (
@@ -146,12 +186,42 @@ func (rf *ref) require(bkt, key int, why string) {
 	}
 }
 
+// exactBounds: does the pair of bounds fix the range under any reading? Both
+// bounds are non-nil and non-empty; in a universe where "" is a key an empty
+// start bound is that key (the smallest key there is), so it counts too.
+func (u *universe) exactBounds(s, e uint8) bool {
+	return (s >= 2 || (s == 1 && u.emptyIsKey)) && e >= 2
+}
+
+// keySuffix: in the boundary universes the kind of key a finding is about is
+// part of the violation key.
+func (u *universe) keySuffix(k string) string {
+	if !u.quoted {
+		return ""
+	}
+	if k == "" && u.nilSpelled {
+		return ".empty_key_passed_as_nil"
+	}
+	return "." + keyClass(k)
+}
+
+// rowSuffix: keySuffix plus which version of the row was yielded (boundary
+// universes only): a row misplaced or repeated with the value of the
+// committed state is another defect than one with the value just written.
+func (rf *ref) rowSuffix(bkt int, it kv) string {
+	if !rf.u.quoted {
+		return ""
+	}
+	return rf.u.keySuffix(it.k) + ".value_" + rf.valClass(bkt, rf.u.keyIndex(it.k), it.v)
+}
+
 // checkScan compares what a scan yielded with the reference and returns the
-// first discrepancy. exact: the bounds are letters, so the live keys of
+// first discrepancy. exact: the bounds fix the range, so the live keys of
 // [start,end) are demanded; otherwise only what holds under any reading of a
 // nil / empty bound: yielded keys are live, carry the visible value, ascend.
 func (rf *ref) checkScan(o op, r opResult, exact bool) (key string, want []kv) {
 	bkt := int(o.bkt)
+	u := rf.u
 	if exact {
 		want = rf.scanWant(bkt, o.s, o.e)
 		switch {
@@ -165,10 +235,10 @@ func (rf *ref) checkScan(o op, r opResult, exact bool) (key string, want []kv) {
 	for i, it := range r.items {
 		k, val, live, src := rf.status(bkt, it.k)
 		if i > 0 && it.k == prev {
-			return "c10.select_yields_key_twice", want
+			return "c10.select_yields_key_twice" + rf.rowSuffix(bkt, it), want
 		}
 		if i > 0 && it.k < prev {
-			return "c10.select_not_ascending", want
+			return "c10.select_not_ascending" + rf.rowSuffix(bkt, it), want
 		}
 		prev = it.k
 		if !live {
@@ -183,6 +253,7 @@ func (rf *ref) checkScan(o op, r opResult, exact bool) (key string, want []kv) {
 			default:
 				return "c10.select_yields_unknown_key", want
 			}
+			name += u.keySuffix(it.k)
 			name += ".value_" + rf.valClass(bkt, k, it.v)
 			if src != "own_del" && rf.touched[bkt][k] {
 				name += ".after_get_of_it"
@@ -190,22 +261,22 @@ func (rf *ref) checkScan(o op, r opResult, exact bool) (key string, want []kv) {
 			return name, want
 		}
 		if exact {
-			if b := uint8(k + 2); b < o.s || b >= o.e {
-				return "c10.select_yields_key_outside_range", want
+			if !u.inRange(it.k, o.s, o.e) {
+				return "c10.select_yields_key_outside_range" + u.keySuffix(it.k), want
 			}
 			if i < len(want) && want[i].k != it.k {
 				// both ascend and it.k is live and in range: want[i] was skipped
 				_, _, _, s2 := rf.status(bkt, want[i].k)
-				return "c10.select_misses_live_key." + s2, want
+				return "c10.select_misses_live_key." + s2 + u.keySuffix(want[i].k), want
 			}
 		}
 		if it.v != val {
-			return "c10.select_wrong_value.want_" + src + ".got_" + rf.valClass(bkt, k, it.v), want
+			return "c10.select_wrong_value.want_" + src + ".got_" + rf.valClass(bkt, k, it.v) + u.keySuffix(it.k), want
 		}
 	}
 	if exact && len(r.items) < len(want) {
 		_, _, _, s2 := rf.status(bkt, want[len(r.items)].k)
-		return "c10.select_misses_live_key." + s2, want
+		return "c10.select_misses_live_key." + s2 + u.keySuffix(want[len(r.items)].k), want
 	}
 	return "", want
 }
@@ -229,7 +300,7 @@ func (rf *ref) apply(o op, r opResult) {
 	case opSel:
 		if !r.err {
 			for _, it := range r.items {
-				if ki := indexOf(keyNames[:], it.k); ki >= 0 {
+				if ki := rf.u.keyIndex(it.k); ki >= 0 {
 					rf.require(bkt, ki, needScan)
 				}
 			}
@@ -294,7 +365,16 @@ func sumAmounts(ins []*protos.TxInput, outs []*protos.TxOutput) (*big.Int, *big.
 	return a, b
 }
 
-func describeWSet(ws map[string]string) string {
+// showID renders the write-set id bucket/key (bucket names hold no "/").
+func (u *universe) showID(id string) string {
+	if !u.quoted {
+		return id
+	}
+	parts := strings.SplitN(id, "/", 2)
+	return parts[0] + "/" + u.show(parts[1])
+}
+
+func describeWSet(u *universe, ws map[string]string) string {
 	keys := make([]string, 0, len(ws))
 	for k := range ws {
 		keys = append(keys, k)
@@ -311,7 +391,7 @@ func describeWSet(ws map[string]string) string {
 			// the ledger picked (hence the encoded length) varies from run to run
 			fmt.Fprintf(&sb, "%s=%s", k, describeUtxoRecord(k, ws[k]))
 		} else {
-			fmt.Fprintf(&sb, "%s=%q", k, ws[k])
+			fmt.Fprintf(&sb, "%s=%q", u.showID(k), ws[k])
 		}
 	}
 	sb.WriteString("}")
@@ -479,10 +559,17 @@ func refusalContext(rs *ref, o op) string {
 // same trace on this backing.
 func checkProgram(bw *bworld, prog []op, st *stats) (fs []finding, panicAt int) {
 	panicAt = -1
-	where := func(i int) string {
-		return fmt.Sprintf("backing (a,b,c)=%s, program %v, operation #%d (%s)", bw.b, progStrings(prog), i+1, prog[i])
+	u := bw.b.u
+	us := &st.byU[u.idx]
+	us.traces++
+	bdesc := "backing (a,b,c)=" + bw.b.String()
+	if u.quoted {
+		bdesc = "backing (" + strings.Join(u.ktok, ",") + ")=" + bw.b.String()
 	}
-	whole := lazyString(func() string { return fmt.Sprintf("backing (a,b,c)=%s, program %v", bw.b, progStrings(prog)) })
+	where := func(i int) string {
+		return fmt.Sprintf("%s, program %v, operation #%d (%s)", bdesc, progStrings(prog), i+1, prog[i])
+	}
+	whole := lazyString(func() string { return fmt.Sprintf("%s, program %v", bdesc, progStrings(prog)) })
 	add := func(key, summary, expected, observed string) {
 		fs = append(fs, finding{key: key, summary: summary, expected: expected, observed: observed})
 	}
@@ -534,6 +621,7 @@ func checkProgram(bw *bworld, prog []op, st *stats) (fs []finding, panicAt int) 
 				st.getNotFound++
 			} else {
 				st.getFound++
+				us.getFound[k]++
 			}
 			if live == r.err || (live && want != r.val) {
 				got := "not_found"
@@ -544,7 +632,7 @@ func checkProgram(bw *bworld, prog []op, st *stats) (fs []finding, panicAt int) 
 				if live {
 					exp = fmt.Sprintf("%q", want)
 				}
-				add("c10.get.want_"+src+".got_"+got, where(i)+": a read does not observe the latest write / the underlying state", exp, o.observation(r))
+				add("c10.get.want_"+src+".got_"+got+u.keySuffix(u.keys[k]), where(i)+": a read does not observe the latest write / the underlying state", exp, o.observation(r))
 			}
 		case opPut, opDel:
 			if r.err {
@@ -553,7 +641,7 @@ func checkProgram(bw *bworld, prog []op, st *stats) (fs []finding, panicAt int) 
 		case opSel:
 			st.scans++
 			cls := boundsClass(o.s, o.e)
-			exact := o.s >= 2 && o.e >= 2
+			exact := u.exactBounds(o.s, o.e)
 			if r.err {
 				st.scanRejected++
 				if cls == "proper_range" {
@@ -563,16 +651,40 @@ func checkProgram(bw *bworld, prog []op, st *stats) (fs []finding, panicAt int) 
 			}
 			if exact {
 				st.scansStrict++
+				us.scansExact++
 			}
 			if len(r.items) > 0 {
 				st.scansYield++
 				st.scanItems += len(r.items)
+				nw, nr := rf.layers(bkt)
+				if len(r.items) >= 2 && nw+nr > 0 {
+					us.mergedScans++
+				}
+				for j, it := range r.items {
+					if ki := u.keyIndex(it.k); ki >= 0 {
+						us.yielded[ki]++
+						if j == 0 {
+							us.yieldedFirst[ki]++
+						}
+						switch {
+						case rf.ov[bkt][ki].written:
+							us.bySource[0][ki]++
+						case rf.need[bkt][ki] != "" || rf.touched[bkt][ki]:
+							us.bySource[1][ki]++
+						default:
+							us.bySource[2][ki]++
+						}
+					}
+				}
 			}
 			if r.iterErr {
 				add("c10.select_iterator_error."+cls, where(i)+": iterator reports an error", "no error", o.observation(r))
 			}
 			if r.runaway {
-				add("c10.select_does_not_terminate", where(i)+fmt.Sprintf(": more than %d keys yielded", maxYield-1), "at most 3 keys", o.observation(r))
+				add("c10.select_does_not_terminate", where(i)+fmt.Sprintf(": more than %d keys yielded", maxYield-1), fmt.Sprintf("at most %d keys", len(u.keys)), o.observation(r))
+			}
+			if exact && o.consume == consOne && len(rf.scanWant(bkt, o.s, o.e)) > 1 {
+				us.earlyStops++
 			}
 			if key, want := rf.checkScan(o, r, exact); key != "" {
 				exp := "only live keys, ascending, with their visible value"
@@ -653,64 +765,65 @@ func checkProgram(bw *bworld, prog []op, st *stats) (fs []finding, panicAt int) 
 		var out []string
 		for _, vd := range rw.RSet {
 			pd := vd.GetPureData()
-			out = append(out, pd.GetBucket()+"/"+string(pd.GetKey())+"@"+version{txid: vd.RefTxid, offset: vd.RefOffset}.String())
+			out = append(out, pd.GetBucket()+"/"+u.show(string(pd.GetKey()))+"@"+version{txid: vd.RefTxid, offset: vd.RefOffset}.String())
 		}
 		return out
 	}
-	var inRSet [3][3]bool
+	var inRSet [3][maxKeys]bool
 	for _, vd := range rw.RSet {
 		pd := vd.GetPureData()
-		bi, ki := indexOf(bucketNames[:], pd.GetBucket()), indexOf(keyNames[:], string(pd.GetKey()))
+		bi, ki := indexOf(bucketNames[:], pd.GetBucket()), u.keyIndex(string(pd.GetKey()))
 		if bi < 0 || ki < 0 {
-			id := pd.GetBucket() + "/" + string(pd.GetKey())
+			id := pd.GetBucket() + "/" + u.show(string(pd.GetKey()))
 			add("c10.rset_has_unknown_key", whole.s()+": read set holds "+id+" which no call named", "keys of the program", id)
 			continue
 		}
+		us.rsetEntries[ki]++
 		if inRSet[bi][ki] {
-			id := pd.GetBucket() + "/" + string(pd.GetKey())
-			add("c10.rset_duplicate_key", whole.s()+": read set holds "+id+" twice", "one entry per key", id+" twice")
+			id := pd.GetBucket() + "/" + u.show(string(pd.GetKey()))
+			add("c10.rset_duplicate_key"+u.keySuffix(u.keys[ki]), whole.s()+": read set holds "+id+" twice", "one entry per key", id+" twice")
 		}
 		inRSet[bi][ki] = true
 		wantVer := version{}
 		status := backingNames[stAbsent]
 		if bi == 0 {
 			wantVer = bw.ver[ki]
-			status = backingNames[bw.b[ki]]
+			status = backingNames[bw.b.st[ki]]
 		}
 		if !bytes.Equal(vd.RefTxid, wantVer.txid) || vd.RefOffset != wantVer.offset {
-			id := pd.GetBucket() + "/" + string(pd.GetKey())
-			add("c10.rset_wrong_version."+status, whole.s()+": read set entry "+id+" does not carry the version the store holds",
+			id := pd.GetBucket() + "/" + u.show(string(pd.GetKey()))
+			add("c10.rset_wrong_version."+status+u.keySuffix(u.keys[ki]), whole.s()+": read set entry "+id+" does not carry the version the store holds",
 				wantVer.String(), version{txid: vd.RefTxid, offset: vd.RefOffset}.String())
 		}
 	}
 	for b := 0; b < 2; b++ {
-		for k := 0; k < 3; k++ {
+		for k := range u.keys {
 			if why := rf.need[b][k]; why != "" && !inRSet[b][k] {
 				status := backingNames[stAbsent]
 				if b == 0 {
-					status = backingNames[bw.b[k]]
+					status = backingNames[bw.b.st[k]]
 				}
-				add("c10.rset_misses_key."+why+"."+status, whole.s()+fmt.Sprintf(": key %s/%s (%s) is not in the read set", bucketNames[b], keyNames[k], why),
-					bucketNames[b]+"/"+keyNames[k]+" in the read set", fmt.Sprintf("read set %v", rsetDesc()))
+				add("c10.rset_misses_key."+why+"."+status+u.keySuffix(u.keys[k]), whole.s()+fmt.Sprintf(": key %s/%s (%s) is not in the read set", bucketNames[b], u.ktok[k], why),
+					bucketNames[b]+"/"+u.ktok[k]+" in the read set", fmt.Sprintf("read set %v", rsetDesc()))
 			}
 		}
 	}
 
 	wantW := map[string]string{}
 	for b := 0; b < 3; b++ {
-		for k := 0; k < 3; k++ {
+		for k := range u.keys {
 			if c := rf.ov[b][k]; c.written {
 				v := c.val
 				if c.deleted {
 					v = delMarker
 				}
-				wantW[bucketNames[b]+"/"+keyNames[k]] = v
+				wantW[bucketNames[b]+"/"+u.keys[k]] = v
 			}
 		}
 	}
 	gotW, dup := wsetMap(rw.WSet)
 	if dup {
-		add("c10.wset_duplicate_key", whole.s()+": a key appears twice in the write set", "one entry per key", describeWSet(gotW))
+		add("c10.wset_duplicate_key", whole.s()+": a key appears twice in the write set", "one entry per key", describeWSet(u, gotW))
 	}
 	utxoIn, hasIn := gotW[bktTransient+"/"+utxoInKey]
 	utxoOut, hasOut := gotW[bktTransient+"/"+utxoOutKey]
@@ -742,15 +855,19 @@ func checkProgram(bw *bworld, prog []op, st *stats) (fs []finding, panicAt int) 
 		if strings.HasPrefix(id, bktTransient+"/") {
 			bc = "transient_bucket"
 		}
+		parts := strings.SplitN(id, "/", 2)
+		ksfx := u.keySuffix(parts[1])
+		if ki := u.keyIndex(parts[1]); ki >= 0 && okG {
+			us.wsetEntries[ki]++
+		}
 		switch {
 		case okW && !okG:
-			add("c10.wset_misses_written_key."+kind+"."+bc, whole.s()+": written key "+id+" is not in the write set", describeWSet(wantW), describeWSet(kvW))
+			add("c10.wset_misses_written_key."+kind+"."+bc+ksfx, whole.s()+": written key "+u.showID(id)+" is not in the write set", describeWSet(u, wantW), describeWSet(u, kvW))
 		case !okW && okG:
-			add("c10.wset_has_unwritten_key."+bc, whole.s()+": write set holds "+id+" which the program never wrote", describeWSet(wantW), describeWSet(kvW))
+			add("c10.wset_has_unwritten_key."+bc, whole.s()+": write set holds "+u.showID(id)+" which the program never wrote", describeWSet(u, wantW), describeWSet(u, kvW))
 		case w != g:
-			parts := strings.SplitN(id, "/", 2)
-			vc := rf.valClass(indexOf(bucketNames[:], parts[0]), indexOf(keyNames[:], parts[1]), g)
-			add("c10.wset_wrong_final_value.want_"+kind+".got_"+vc, whole.s()+": write set does not hold the final value of "+id, describeWSet(wantW), describeWSet(kvW))
+			vc := rf.valClass(indexOf(bucketNames[:], parts[0]), u.keyIndex(parts[1]), g)
+			add("c10.wset_wrong_final_value.want_"+kind+".got_"+vc+ksfx, whole.s()+": write set does not hold the final value of "+u.showID(id), describeWSet(u, wantW), describeWSet(u, kvW))
 		}
 	}
 
@@ -788,7 +905,7 @@ func checkProgram(bw *bworld, prog []op, st *stats) (fs []finding, panicAt int) 
 	}
 	if len(rf.xfers) == 0 {
 		if hasIn || hasOut {
-			add("c10.wset_utxo_record_without_transfer", whole.s()+": transient token record without a transfer", "none", describeWSet(gotW))
+			add("c10.wset_utxo_record_without_transfer", whole.s()+": transient token record without a transfer", "none", describeWSet(u, gotW))
 		}
 	} else {
 		okRec := hasIn && hasOut
@@ -801,7 +918,7 @@ func checkProgram(bw *bworld, prog []op, st *stats) (fs []finding, panicAt int) 
 		}
 		if !okRec {
 			add("c10.wset_utxo_record_differs", whole.s()+": after Flush the transient bucket does not record the token inputs / outputs of the sandbox",
-				"ContractUtxo.Inputs / ContractUtxo.Outputs = UTXORWSet", describeWSet(gotW))
+				"ContractUtxo.Inputs / ContractUtxo.Outputs = UTXORWSet", describeWSet(u, gotW))
 		}
 	}
 
@@ -843,6 +960,13 @@ func checkProgram(bw *bworld, prog []op, st *stats) (fs []finding, panicAt int) 
 				refusedSoFar = true
 			}
 		}
+		if o.kind == opSel {
+			for _, it := range r2.items {
+				if ki := u.keyIndex(it.k); ki >= 0 {
+					us.replayedRows[ki]++
+				}
+			}
+		}
 		if sameResult(res[i], r2) {
 			continue
 		}
@@ -866,7 +990,7 @@ func checkProgram(bw *bworld, prog []op, st *stats) (fs []finding, panicAt int) 
 			if !r2.err {
 				got = rs.valClass(bkt, k, r2.val)
 			}
-			key += ".of_" + src + ".replay_" + got
+			key += ".of_" + src + ".replay_" + got + u.keySuffix(u.keys[k])
 		case opSel:
 			switch {
 			case res[i].err != r2.err:
@@ -882,7 +1006,7 @@ func checkProgram(bw *bworld, prog []op, st *stats) (fs []finding, panicAt int) 
 				for j < len(x) && j < len(y) && x[j] == y[j] {
 					j++
 				}
-				side, name := "", ""
+				side, name, named := "", "", true
 				switch {
 				case j < len(x) && j < len(y) && x[j].k == y[j].k:
 					side, name = "value_differs", x[j].k
@@ -891,10 +1015,10 @@ func checkProgram(bw *bworld, prog []op, st *stats) (fs []finding, panicAt int) 
 				case j < len(y):
 					side, name = "replay_yields_extra", y[j].k
 				default:
-					side = "iterator_state_differs"
+					side, named = "iterator_state_differs", false
 				}
 				src := ""
-				if name != "" {
+				if named {
 					_, _, _, src = rs.status(bkt, name)
 				}
 				if src != "never_written" {
@@ -905,6 +1029,9 @@ func checkProgram(bw *bworld, prog []op, st *stats) (fs []finding, panicAt int) 
 				key += "." + side
 				if src != "" {
 					key += "." + src + "_key"
+				}
+				if named {
+					key += u.keySuffix(name)
 				}
 			}
 		}
@@ -930,7 +1057,7 @@ func checkProgram(bw *bworld, prog []op, st *stats) (fs []finding, panicAt int) 
 	rw2 := sb2.RWSet()
 	gotW2, _ := wsetMap(rw2.WSet)
 	if !sameStringMap(gotW, gotW2) {
-		add("c10.replay.write_set_differs", whole.s()+": re-running over the read set gives another write set", describeWSet(gotW), describeWSet(gotW2))
+		add("c10.replay.write_set_differs", whole.s()+": re-running over the read set gives another write set", describeWSet(u, gotW), describeWSet(u, gotW2))
 	}
 	urw2 := sb2.UTXORWSet()
 	ctx := ""
